@@ -335,6 +335,12 @@ class RefIndex:
         # keep the settings order (the library rebuilds its list in that order)
         self.dirs = {p: self.dirs[p] for p in wanted}
 
+    def forget(self, item: 'RefItem', also: Iterable[str] = ()):
+        """Stop judging an entry: drop it from the model, its path becomes dontcare."""
+        self.dirs[item.owner].items.pop((item.subdir, item.filename), None)
+        self.dontcare.add(item.abspath)
+        self.dontcare.update(also)
+
     # -- history-free oracle -------------------------------------------------------
     def from_disk(self) -> dict:
         """owner -> set of (subdir, filename): walk the disk below every shared
